@@ -192,3 +192,46 @@ Proof.
               Hv Hj Hs He (macroman_law _ _ He) Hw) as (r'' & A & B & _).
   exists bs, w, r''. repeat split; assumption.
 Qed.
+
+(* ------------------------------------------------------------------ names given at construction *)
+Section CtorNames.
+  Variable enc : list Z -> option (list Z).
+  Variable dec : list Z -> option (list Z).
+
+  Lemma group_new_name_survives v pre bs w data :
+    valid_str v -> joinable_free v = true ->
+    enc v = Some data -> dec data = Some v ->
+    write_name_part enc pre (group_new_rec v) = Ok (bs, w) ->
+    exists r, read_name_part dec bs = Ok r /\ get_name r = v.
+  Proof.
+    intros Hv Hj He Hd Hw.
+    destruct (read_write_name_part enc dec pre (group_new_rec v) bs w data He Hd Hv Hw) as [A _].
+    eexists. split; [exact A|]. cbn [get_name rec_luni group_new_rec option_map].
+    now rewrite join_units_id.
+  Qed.
+
+  Lemma frompil_name_survives v pre bs w data :
+    enc v = Some data -> dec data = Some v ->
+    write_name_part enc pre (frompil_rec v) = Ok (bs, w) ->
+    exists r, read_name_part dec bs = Ok r /\ get_name r = v.
+  Proof.
+    intros He Hd Hw.
+    destruct (read_write_name_part enc dec pre (frompil_rec v) bs w data He Hd I Hw) as [A _].
+    eexists. split; [exact A|]. reflexivity.
+  Qed.
+End CtorNames.
+
+Lemma ctor_name_save_refuted_lemma :
+  exists v, scalar_str v /\ Z.of_nat (length v) < 256 /\
+    forall pre, write_name_part macroman_enc pre (group_new_rec v) = Err ValueErr /\
+                write_name_part macroman_enc pre (frompil_rec v) = Err ValueErr.
+Proof.
+  exists [0x416]. split; [repeat constructor|]. split; [cbn; lia|]. intros pre. split; reflexivity.
+Qed.
+
+Lemma name_save_other_encoding_refuted_lemma :
+  exists v r', scalar_str v /\ set_name macroman_enc v {| rec_name := []; rec_luni := None |} = Ok r' /\
+    forall pre, write_name_part ascii_enc pre r' = Err ValueErr.
+Proof.
+  exists [0xE9]. eexists. split; [repeat constructor|]. split; [reflexivity|]. intros pre. reflexivity.
+Qed.
